@@ -10,7 +10,8 @@ import io as pyio
 
 from .. import docgen, simfs
 from ..engine import RunResult
-from ..fingerprint import digest, fingerprint
+from ..fingerprint import digest
+from ..fingerprint import public_fingerprint as fingerprint
 from ..repo import entrypoint as EP
 from ..repo import model as M
 from ..repo import mwbase
